@@ -1,6 +1,7 @@
 import Req.Lemmas.C06Recv
 import Req.Lemmas.C06Acks
 import Req.Lemmas.C06Credit
+import Req.Lemmas.C06Pump
 /-!
 C06 — HTTP/2 connections respect everything the peer advertised: property theorems.
 
@@ -197,6 +198,18 @@ theorem no_permanent_stall_stream (cfg : Cfg) (hfix : cfg.fixes = Fixes.all) (op
 /-- the download of `exampleOps`: 5010 bytes taken from both windows, 5000 buffered, then read -/
 example : (run exampleCfg exampleOps).1.connIn = ⟨1073807359, 0⟩ := by decide
 example : sumBuffered (run exampleCfg exampleOps).1.streams = 0 := by decide
+
+/-! ### what the script lane observes is covered -/
+
+/-- **script_covered**: the pumped execution the deterministic script lane compares with the
+implementation (`scriptStep`: a scripted operation, then all body writers run until they block)
+is the run of the machine on that operation followed by `write` operations — one of the
+operation lists the theorems above quantify over. -/
+theorem script_covered (st : State) (hist : List Event) (op : Op) :
+    ∃ ws : List Op, (∀ o ∈ ws, ∃ id, o = Op.write id) ∧
+      (runFrom st hist (op :: ws)).1 = (scriptStep st op).1 :=
+  let ⟨ws, h1, h2⟩ := pump_is_run st hist op
+  ⟨ws, h1, by rw [h2]⟩
 
 /-! ### the unchanged code: one counter-example per repair (replayed on the implementation by the
 directed scripts of the script lane) -/
